@@ -9,7 +9,7 @@ ALL = ['C%02d' % i for i in range(1, 21)]
 checks = []
 for pid in ALL:
     s = P.PROPS.get(pid)
-    if not s or s.get('unclaimed'):
+    if not s or s.get('unclaimed') or pid not in P.READY:
         continue
     checks.append(dict(
         property_id=pid,
